@@ -14,6 +14,17 @@ import sys
 
 ROOT = os.path.dirname(os.path.dirname(os.path.abspath(__file__)))
 HINTS = {
+    7: "a defect that needs RE-ENTRANCY: a user callback (system, cell generator, score function, decode hook, per-agent "
+       "collector function, composite function) that itself calls back into the library (adds/removes agents or systems, "
+       "queries neighbours, builds another parameter list, decodes, adds a tag) while the library is in the middle of the "
+       "operation that invoked it; a defect between TWO objects of the same kind alive together (two environments of one "
+       "model, two worlds, two collectors writing the same file or sharing an id in different models, two tag libraries, "
+       "two decoders); a defect at a NEGATIVE or very large numeric value (negative priorities/starts/coordinates/leeways/"
+       "ids/tags, values beyond 2**63, -0.0) or where an argument is passed POSITIONALLY instead of by keyword (or the "
+       "other way round) and a parameter order was changed; a defect in what is read at the START versus the END of a "
+       "timestep (state observed by collectors and systems of different priorities); a defect that shows only in the "
+       "EXAMPLES the docstrings themselves give; a defect in file handling of collectors (modes 'w' and 'a', flush on the "
+       "last step, a file name reused by a second collector, clear_records_on_write).",
     6: "a defect at the EDGE of a numeric range (start == end, frequency exactly 1 or 2, radius 0, an extent of exactly 1, "
        "leeway 0, one repetition, an empty or one-element collection); a defect in which a method MUTATES an argument or a "
        "returned container that the caller still uses (lists, dicts, arrays handed in or out); a defect that only shows "
